@@ -109,34 +109,35 @@ let canon_s v = let b = Buffer.create 64 in canon b v; Buffer.contents b
 let op_js_rt a =
   let v = parse_value (List.hd a.pos) in
   let enc = js_encode fprint v in
-  match js_decode fparse enc with
+  match js_decode fparse f_js_max_depth enc with
   | Some back -> emit (Printf.sprintf "js_rt enc=%s dec=%s" (if num a "cmp" 1 <> 0 then hexl enc else "~") (canon_s back))
   | None -> emit "js_rt err"
 
 let op_js_dec a =
-  match js_decode fparse (bytes_of_string (hex_dec (List.hd a.pos))) with
+  match js_decode fparse f_js_max_depth (bytes_of_string (hex_dec (List.hd a.pos))) with
   | Some v -> emit ("js_dec ok " ^ canon_s v)
   | None -> emit "js_dec err"
 
 let op_js_msg a =
-  match js_decode_message fparse (bytes_of_string (hex_dec (List.hd a.pos))) with
+  match js_decode_message fparse f_js_max_depth (bytes_of_string (hex_dec (List.hd a.pos))) with
   | Some v -> emit ("js_msg ok " ^ canon_s v)
   | None -> emit "js_msg err"
 
-let op_js_deep a =
+let js_deep_line a =
   let n = num a "n" 1 and close = num a "close" 1 <> 0 and obj = str a "kind" "a" = "o" in
   let b = Buffer.create (n * 6) in
   for _ = 1 to n do Buffer.add_string b (if obj then "{\"a\":" else "[") done;
   if obj then Buffer.add_char b '0';
   if close then for _ = 1 to n do Buffer.add_string b (if obj then "}" else "]") done;
-  match js_decode fparse (bytes_of_string (Buffer.contents b)) with
+  match js_decode fparse f_js_max_depth (bytes_of_string (Buffer.contents b)) with
   | Some v ->
     let rec depth d (v : jv) = match v with
       | JsArr [] -> d + 1 | JsArr (x :: _) -> depth (d + 1) x
       | JsObj l -> (match List.assoc_opt (bytes_of_string "a") l with Some x -> depth (d + 1) x | None -> d + 1)
       | _ -> d in
-    emit (Printf.sprintf "js_deep n=%d ok depth=%d" n (depth 0 v))
-  | None -> emit (Printf.sprintf "js_deep n=%d err" n)
+    Printf.sprintf "js_deep n=%d ok depth=%d" n (depth 0 v)
+  | None -> Printf.sprintf "js_deep n=%d err" n
+let op_js_deep a = emit (js_deep_line a)
 
 (* ---------------- oracle: the extracted Gallina checks over the implementation's trace ---------------- *)
 let feqb (a : float) (b : float) = Int64.bits_of_float a = Int64.bits_of_float b || (a = 0.0 && b = 0.0)
@@ -213,23 +214,20 @@ let oracle_c20 script trace =
         let dec = match t with _ :: "ok" :: c :: _ -> (try Some (parse_value c) with _ -> None) | _ -> None in
         let malformed = (match t with _ :: "ok" :: _ :: _ -> false | [_; "err"] -> false | _ -> true) in
         if malformed then fail ("json-decode malformed-observation " ^ l)
-        else if not (js_oracle_dec fparse feqb fint (bytes_of_string (hex_dec (List.hd a.pos))) dec) then fail "json-decode differs-from-model")
+        else if not (js_oracle_dec fparse f_js_max_depth feqb fint (bytes_of_string (hex_dec (List.hd a.pos))) dec) then fail "json-decode differs-from-model")
     | Some ("js_msg", a) ->
       (match take line with None -> () | Some l ->
         let t = toks_of l in
         let dec = match t with _ :: "ok" :: c :: _ -> (try Some (parse_value c) with _ -> None) | _ -> None in
-        if not (js_oracle_msg fparse feqb fint (bytes_of_string (hex_dec (List.hd a.pos))) dec) then fail "json-message differs-from-model")
+        if not (js_oracle_msg fparse f_js_max_depth feqb fint (bytes_of_string (hex_dec (List.hd a.pos))) dec) then fail "json-message differs-from-model")
     | Some ("js_deep", a) ->
+      (* exact: up to the nesting limit of the source the document is decoded, beyond it it is rejected; never a crash *)
       (match take line with None -> () | Some l ->
-        let n = num a "n" 1 and close = num a "close" 1 <> 0 in
         let t = toks_of l in
-        let ok = (match t with [_; _; "ok"; d] -> d = Printf.sprintf "depth=%d" n | _ -> false) in
-        let er = (match t with [_; _; "err"] -> true | _ -> false) in
         let crashed = (match t with _ :: _ :: "crash" :: _ -> true | _ -> false) in
         if crashed then fail (Printf.sprintf "crash op=%s :: CRASH in isolated child (%s)" line l)
-        else if close && n <= 64 && not ok then fail "json-deep nesting-within-64-not-decoded"
-        else if close && not (ok || er) then fail ("json-deep malformed-observation " ^ l)
-        else if (not close) && not er then fail "json-deep unterminated-document-accepted")
+        else if l <> js_deep_line a then
+          fail (Printf.sprintf "json-deep %s expected=%s" (if num a "n" 1 <= 64 then "nesting-within-64-not-decoded" else "nesting-limit-not-enforced-exactly") (js_deep_line a)))
     | _ -> ()) script;
   if !err = None then flush_reader ();
   !err
